@@ -10,7 +10,9 @@ import (
 	"verifharness/c02"
 	"verifharness/c03"
 	"verifharness/c04"
+	"verifharness/c05"
 	"verifharness/c06"
+	"verifharness/c07"
 	"verifharness/c18"
 	"verifharness/nd"
 )
@@ -21,21 +23,26 @@ type entry struct {
 }
 
 var registry = map[string]entry{
-	"c18.RunFromNode":   {c18.Setup, c18.RunFromNode},
-	"c18.RunCompose":    {c18.Setup, c18.RunCompose},
-	"c18.RunFnStep":     {c18.Setup, c18.RunFnStep},
-	"c03.RunOrder":      {c03.Setup, c03.RunOrder},
-	"c03.RunUnion":      {c03.Setup, c03.RunUnion},
-	"c02.RunPredicates": {c02.Setup, c02.RunPredicates},
-	"c01.RunSteps":      {c01.Setup, c01.RunSteps},
-	"c04.RunNumber":     {c04.Setup, c04.RunNumber},
-	"c04.RunString":     {c04.Setup, c04.RunString},
-	"c04.RunBool":       {c04.Setup, c04.RunBool},
-	"c06.RunArith":      {c06.Setup, c06.RunArith},
-	"c06.RunMod":        {c06.Setup, c06.RunMod},
-	"c06.RunRounding":   {c06.Setup, c06.RunRounding},
-	"c06.RunSum":        {c06.Setup, c06.RunSum},
-	"c06.RunVacuity":    {c06.Setup, c06.RunVacuity},
+	"c07.RunSearch":      {c07.Setup, c07.RunSearch},
+	"c07.RunSubstring":   {c07.Setup, c07.RunSubstring},
+	"c07.RunLengthSpace": {c07.Setup, c07.RunLengthSpace},
+	"c07.RunTranslate":   {c07.Setup, c07.RunTranslate},
+	"c05.RunCompare":     {c05.Setup, c05.RunCompare},
+	"c18.RunFromNode":    {c18.Setup, c18.RunFromNode},
+	"c18.RunCompose":     {c18.Setup, c18.RunCompose},
+	"c18.RunFnStep":      {c18.Setup, c18.RunFnStep},
+	"c03.RunOrder":       {c03.Setup, c03.RunOrder},
+	"c03.RunUnion":       {c03.Setup, c03.RunUnion},
+	"c02.RunPredicates":  {c02.Setup, c02.RunPredicates},
+	"c01.RunSteps":       {c01.Setup, c01.RunSteps},
+	"c04.RunNumber":      {c04.Setup, c04.RunNumber},
+	"c04.RunString":      {c04.Setup, c04.RunString},
+	"c04.RunBool":        {c04.Setup, c04.RunBool},
+	"c06.RunArith":       {c06.Setup, c06.RunArith},
+	"c06.RunMod":         {c06.Setup, c06.RunMod},
+	"c06.RunRounding":    {c06.Setup, c06.RunRounding},
+	"c06.RunSum":         {c06.Setup, c06.RunSum},
+	"c06.RunVacuity":     {c06.Setup, c06.RunVacuity},
 }
 
 func main() {
